@@ -42,7 +42,7 @@ Theorem wrap_plain : forall s (n : Z),
              /\ (s <> [] -> Forall (fun c => c <> []) ls).
 Proof.
   intros s n Hs Hsur Hn.
-  destruct (wrap_total (split_chunks s) n Hn (words_no_surrogate s Hsur)) as [ls Eb].
+  destruct (wrap_total (split_chunks s) n (words_no_surrogate s Hsur)) as [ls Eb].
   exists ls. assert (Hw : wrap s n = Ok ls).
   { unfold wrap, wrap_w. rewrite (parse_plain s Hs). cbn [bind snd].
     change (Z.of_N 0) with 0%Z. rewrite Z.sub_0_r, Eb. cbn [bind].
@@ -51,7 +51,7 @@ Proof.
   split; [exact Hw|]. split; [exact Eb|].
   destruct (chunk_fits_on_plain s n ls Hs Hn Hw) as [Hf Hc].
   split; [exact Hf|]. split; [exact Hc|].
-  intro Hne. exact (byteTextWrap_nonnil s n ls Hne Eb).
+  intro Hne. exact (byteTextWrap_nonnil s n ls Hn Hne Eb).
 Qed.
 
 (* ---------- strip('\x01') and _makeReply on such payloads ---------- *)
